@@ -25,6 +25,12 @@ const (
 	MessageType_ErrorMessage MessageType = 255
 )
 
+// Feature bits of PeerInfo.FuzzFeatures.
+const (
+	FeatureAncestry Features = 1 << 0 // the target keeps and checks the ancestry list given with SetState
+	FeatureForks    Features = 1 << 1 // simple forking
+)
+
 const (
 	// Size constants for serialization
 	sizeOfUint8  = 1 // uint8 occupies 1 byte
